@@ -139,7 +139,35 @@ VARIABLE_SPECS = {
     'time2': [['Time', '10:00:00'], ['Time', '09:00:00-01:00']],
     'seq': [['list', [['int', '1'], ['int', '2'], ['int', '3']]], ['list', []],
             ['list', [['DateTime10', '2000-01-01T00:00:00'], ['int', '1']]]],
+    # arguments that an implementation is tempted to memoise per call site (patterns, flags, pictures, options)
+    's2': [['str', 'Alpha beta ALPHA'], ['str', 'a.c abc ABC'], ['str', 'x']],
+    'pat': [['str', 'alpha'], ['str', 'a.c'], ['str', '[a-c]+'], ['str', 'A']],
+    'flags': [['str', ''], ['str', 'i'], ['str', 'q'], ['str', 's']],
+    'rep': [['str', '-'], ['str', '[$0]'], ['str', '']],
+    'pic': [['str', '0.0'], ['str', '#,##0.00'], ['str', '0%']],
+    'ipic': [['str', '1'], ['str', 'a'], ['str', 'I'], ['str', 'w']],
+    'dpic': [['str', '[Y]-[M01]'], ['str', '[D] [MNn]'], ['str', '[H]:[m]']],
+    'form': [['str', 'NFC'], ['str', 'NFKD'], ['str', '']],
+    'coll': [['str', 'http://www.w3.org/2005/xpath-functions/collation/codepoint'],
+             ['str', 'http://www.w3.org/2005/xpath-functions/collation/html-ascii-case-insensitive']],
+    'dup': [['str', 'combine'], ['str', 'use-first'], ['str', 'use-last']],
+    'seq2': [['list', [['int', '7'], ['int', '8']]], ['list', [['str', 'p'], ['str', 'q'], ['str', 'r']]]],
 }
+
+PARAM_EXPRS = [
+    'matches($s2, $pat, $flags)', 'replace($s2, $pat, $rep, $flags)', 'tokenize($s2, $pat, $flags)',
+    'count(tokenize($s2, $pat))', '//*[matches(name(), $pat, $flags)]/name()', 'matches($s2, $pat)',
+    'for $w in tokenize($s2, " ") return matches($w, $pat, $flags)', 'format-number($d, $pic)',
+    'format-integer($i, $ipic)', 'format-dateTime($dt, $dpic)', 'normalize-unicode($s2, $form)',
+    'compare($s2, "ALPHA BETA ALPHA", $coll)', 'contains($s2, "ALPHA", $coll)', 'translate($s2, $pat, "xyz")',
+    'round-half-to-even($d, $i)', 'substring($s2, $i)', 'string-join(("a", "b"), $s)', 'index-of($seq, $i)',
+    'distinct-values(($s2, upper-case($s2)), $coll)', 'starts-with($s2, "alpha", $coll)',
+    'map:merge((map{"k": $seq2}, map{"k": $i}), map{"duplicates": $dup})?k',
+    'let $m := map{"k": $seq2} return (map:merge(($m, map{"k": 9}), map{"duplicates": $dup})?k, $m?k)',
+    'map:merge((map{"k": $seq2}, map{"k": $seq}), map{"duplicates": "combine"})?k',
+    'array:join(([$seq2], [$i]))?*', 'array:flatten([$seq2, [$seq]])', 'array:sort([$seq2, $i])?*',
+    'sort($seq2, $coll)', 'analyze-string($s2, $pat, $flags)//text()', 'replace($s2, $pat, $rep)',
+]
 
 
 def make_value(spec):
